@@ -210,12 +210,14 @@ CHECKS = {
              "operations under the atomic (required) semantics and finds the violations under the as-built load/save split. "
              "On the implementation, a scheduler inside a wrapping SQL driver lets exactly one request run at a time and "
              "switches before and after every profile load and at every write-transaction begin (storage operations are "
-             "attributed by goroutine; work a handler leaves to a goroutine of its own passes unscheduled and is awaited), "
+             "attributed by goroutine; work a handler leaves to a goroutine of its own passes unscheduled, lands 120 ms late and is awaited; every pair is "
+             "also explored the other way round; bystander users - an unrelated name and names resembling the acting user's - must come out untouched), "
              "so every interleaving of every handler pair on the same user - 16 operations incl. hardware-token sign-ins "
              "through both APIs - is executed against real sqlite storage; the TLC monitor accepts a run iff its answers and final "
              "stored profile equal those of some one-after-another order. A -race build runs a seeded concurrent mix of "
-             "login, U2F sign, VIP push, TOTP, token management, readiness and the real cleanup loop; a report with a "
-             "keymaster frame fails G_C16_NoRace.",
+             "login, U2F sign, VIP push, TOTP, token management, readiness and the real cleanup loop, Okta sign-ins that expire at once, "
+             "concurrent unseals under single-handler request loops, a primary that answers just after the fall-back, event subscribers "
+             "coming and going, and certificates for several users at once; a report with a keymaster frame fails G_C16_NoRace.",
         note="Known findings K16-* record the pervasive lost-update / double-spend anomalies (no transaction across load and "
              "save); a new operation name, a new anomaly or a sequential-schedule deviation is still a violation. Pre-emption "
              "inside Go code between storage operations is only covered by the race detector.",
